@@ -517,7 +517,8 @@ const _: () = {
         fn variant_seed<V>(self, seed: V) -> Result<(V::Value, Self::Variant), Self::Error>
         where V: serde::de::DeserializeSeed<'de> {
             Ok((
-                seed.deserialize(self.de.next_section()?.into_deserializer())?,
+                /* the variant name is percent-encoded like any other string (`foo%2Dbar`) */
+                seed.deserialize(&mut *self.de)?,
                 self,
             ))
         }
